@@ -25,7 +25,7 @@ namespace FShapes
 open Bcast Choreo
 
 /-- `s` can be `expand`ed to `t` (torch: rank of `t` ≥ rank of `s`, every dimension of `s` equal or 1) -/
-def Expands (s t : RShape) : Prop := bcastR s t = some t
+abbrev Expands (s t : RShape) : Prop := bcastR s t = some t
 
 instance (s t : RShape) : Decidable (Expands s t) := inferInstanceAs (Decidable (_ = _))
 
